@@ -340,6 +340,13 @@ func TestC24(t *testing.T) {
 		for k := 3 + r.Intn(6); k > 0; k-- {
 			c.Workloads = append(c.Workloads, c24W{ID: fmt.Sprintf("w%02d%x", len(c.Workloads), r.Intn(1<<16)), App: c.Apps[r.Intn(len(c.Apps))], Entry: c.Entries[r.Intn(len(c.Entries))], Node: c.Nodes[r.Intn(len(c.Nodes))]})
 		}
+		if class == "prefix-of-each-other" && (i/len(classes))%3 == 0 {
+			// a large population under one (app, entry, node): listings that no longer fit one page of whatever size
+			for k := 0; k < 140; k++ {
+				c.Workloads = append(c.Workloads, c24W{ID: fmt.Sprintf("w%03d%x", len(c.Workloads), r.Intn(1<<16)), App: c.Apps[0], Entry: c.Entries[0], Node: c.Nodes[0]})
+			}
+			rec.Count("cases_with_a_large_population/"+c.Backend, 1)
+		}
 		for k := r.Intn(3); k > 0; k-- {
 			c.Procs = append(c.Procs, c24P{App: c.Apps[r.Intn(len(c.Apps))], Entry: c.Entries[r.Intn(len(c.Entries))], Node: c.Nodes[r.Intn(len(c.Nodes))], Count: 1 + r.Intn(3)})
 		}
